@@ -88,7 +88,7 @@ register(
     "Visitor-coverage clauses of index fidelity: (R6a) the yield-line visitor and the generator-status visitor descend "
     "into the same statement-list fields, (R6b) both cover every statement-list field of the AST type universe except "
     "nested scopes. Field values (names, scopes, dependency order, docstrings, usages from marks) are not decided.",
-    [r6.r6a_yield_siblings, r6.r6b_yield, r6.r6d_all_decorators, r8.r8d_decorator_keywords, r3.r3a_clean_before_append, r3.r3b_failure_path_readonly],
+    [r6.r6a_yield_siblings, r6.r6b_yield, r6.r6d_all_decorators, r6.r6e_visit_order, r6.r6f_any_visitor_returns_true_only, r9.r9_char_count_plus_bytes, r8.r8d_decorator_keywords, r3.r3a_clean_before_append, r3.r3b_failure_path_readonly],
 )
 
 register(
@@ -96,7 +96,7 @@ register(
     "Visitor-coverage clauses of undeclared-fixture precision: (R6b) the body visitors descend into every nested "
     "statement list, (R6c) every name-binding form of the language is read by the local-variable collector and all "
     "parameter kinds are enumerated. The quick-fix text edit is a string-value property and is not decided.",
-    [r6.r6b_body, r6.r6c_binding_forms, r10.r10i_no_textual_path_prefix, r3.r3h_wrappers_always_analyse, r8.r11a_analyze_then_publish, r8.r8a_diagnostic_codes],
+    [r6.r6b_body, r6.r6c_binding_forms, r6.r6g_scope_seeds_after_collector, r10.r10i_no_textual_path_prefix, r3.r3h_wrappers_always_analyse, r8.r11a_analyze_then_publish, r8.r8a_diagnostic_codes],
 )
 
 from . import r5
@@ -192,7 +192,7 @@ register(
     "Structural clauses of completion: (R11c) every push into the per-file view is guarded by the seen-set (one entry "
     "per name); (R8c) the textual fallback recognises every decorator module the AST recogniser accepts. Context "
     "classification per line, the offered set algebra and sort priorities are not decided.",
-    [r8.r11c_one_entry_per_name, r8.r8c_text_fallback, r8.r8e_text_fallback_on_every_miss, r5.r5f_walk_bounds] + CACHE,
+    [r8.r11c_one_entry_per_name, r8.r8c_text_fallback, r8.r8e_text_fallback_on_every_miss, r8.r8f_proximity_precedence, r5.r5f_walk_bounds] + CACHE,
 )
 
 from . import r7
@@ -217,7 +217,7 @@ register(
     "of the value given to WalkDir::new) and the directory filter is depth-aware; (R10b) the walk's file-name predicate "
     "and the import-scan seed predicate use the same literal tests; (R10f) the parallel phase uses a "
     "non-short-circuiting consumer. That exactly pytest's file set is indexed for every tree is not decided.",
-    [r10.r10a_relocation, r10.r10a2_classification_relative, r10.r10b_filename_predicates, r10.r10f_no_short_circuit, r1.r1f_no_try_lock, r10.r10k_config_location, r8.r11e_report_root_is_scan_root],
+    [r10.r10a_relocation, r10.r10a2_classification_relative, r10.r10b_filename_predicates, r10.r10f_no_short_circuit, r1.r1f_no_try_lock, r10.r10k_config_location, r8.r11e_report_root_is_scan_root, r10.r10l_skip_predicate_exact],
 )
 
 register(
@@ -228,7 +228,7 @@ register(
     "extends; (R1d) import recursion is guarded by a visited set; (R10j) the import skip filter tests the recorded "
     "module string. Reachability closure on arbitrary graphs and venv layouts are not decided.",
     [r10.r10c_constructors_agree, r10.r10d_mark_before_analyse, r10.r10e_walkers, r10.r10g_no_stale_snapshot, r1.r1d_recursion, r3d.r3d_memo_context,
-     r10.r10j_filter_sees_recorded_module],
+     r10.r10j_filter_sees_recorded_module, r10.r10m_import_reads_are_transitive],
 )
 
 from . import r9
@@ -239,5 +239,5 @@ register(
     "str::find results) must not reach Position.character (UTF-16) unconverted, (R9b) the request's UTF-16 cursor "
     "column must not be compared with byte columns or used as a character index. Concrete token positions (off-by-one, "
     "range containment, duplicates) are value facts and are not decided.",
-    [r9.r9_bytes_to_utf16, r9.r9_utf16_vs_bytes, r9.r9_line_base, r3d.r3d_stamp_origin, r3.r3a_clean_before_append],
+    [r9.r9_bytes_to_utf16, r9.r9_utf16_vs_bytes, r9.r9_line_base, r9.r9_char_count_plus_bytes, r5.r5i_per_document_items_pinned, r3d.r3d_stamp_origin, r3.r3a_clean_before_append],
 )
